@@ -190,18 +190,31 @@ def run_lines(binary, lines, timeout=3600, stall=STALL, hangs=0):
     th.start()
     sel = selectors.DefaultSelector()
     sel.register(p.stdout, selectors.EVENT_READ)
-    buf = b""
+    chunks = []
     hung = False
     fd = p.stdout.fileno()
+    last_line = time.time()      # progress = a completed answer line, not bytes (a runaway case can print forever)
+    pending = 0                  # bytes since the last newline
     while True:
-        if not sel.select(timeout=stall):
+        ready = sel.select(timeout=5)
+        if ready:
+            chunk = os.read(fd, 1 << 20)
+            if not chunk:
+                break
+            chunks.append(chunk)
+            k = chunk.rfind(b"\n")
+            if k >= 0:
+                last_line = time.time()
+                pending = len(chunk) - k - 1
+            else:
+                pending += len(chunk)
+        if time.time() - last_line > stall or pending > (1 << 26):
             hung = True
             p.kill()
             break
-        chunk = os.read(fd, 1 << 20)
-        if not chunk:
-            break
-        buf += chunk
+    buf = b"".join(chunks)
+    if hung:
+        buf = buf[:buf.rfind(b"\n") + 1]   # drop the unfinished answer of the runaway case
     p.wait()
     out = {}
     for l in buf.decode(errors="replace").split("\n"):
